@@ -63,8 +63,86 @@ func c14Owner(key []byte) int {
 	return o
 }
 
+// c14.topo <R|B> <assign1> <assign2> <reads>   two masters (m0 owns slots 0-8191, m1 the rest) and three replicas; assign = which
+//	   master each replica follows, e.g. 001.  The real doSlotsRefresh is run on the first layout, then on the second;
+//	   then <reads> GETs of keys in m0's slots -> the classes of the nodes they went to: M (m0), R (a replica that follows m0 now), X (anything else), sorted
+func (c *c14) topo(f []string) string {
+	if len(f) != 4 || (f[0] != "R" && f[0] != "B") || len(f[1]) != 3 || len(f[2]) != 3 {
+		return "bad-op"
+	}
+	reads, err := strconv.Atoi(f[3])
+	if err != nil || reads < 1 || reads > 200 {
+		return "bad-op"
+	}
+	strat := map[string]pbredis.ReadStrategy{"R": pbredis.ReadStrategy_REPLICA, "B": pbredis.ReadStrategy_BOTH}[f[0]]
+	masters := []string{hx.NodeAddr(0), hx.NodeAddr(1)}
+	reps := []string{"r0:1", "r1:1", "r2:1"}
+	rig := hx.NewRig(2, strat, reps...)
+	layout := func(assign string) (*redis.RespValue, bool) {
+		var sb strings.Builder
+		fmt.Fprintf(&sb, "%040d %s@1 master - 0 0 1 connected 0-8191\n", 1, masters[0])
+		fmt.Fprintf(&sb, "%040d %s@1 master - 0 0 1 connected 8192-16383\n", 2, masters[1])
+		for i, ch := range assign {
+			if ch != '0' && ch != '1' {
+				return nil, false
+			}
+			fmt.Fprintf(&sb, "%040d %s@1 slave %040d 0 0 1 connected\n", 10+i, reps[i], int(ch-'0')+1)
+		}
+		return &redis.RespValue{Type: redis.BulkString, Text: []byte(sb.String())}, true
+	}
+	for _, a := range f[1:3] {
+		l, ok := layout(a)
+		if !ok {
+			return "bad-op"
+		}
+		if err := rig.Refresh(l); err != nil {
+			return "refresh-failed"
+		}
+	}
+	var classes []string
+	for i := 0; len(classes) < reads && i < 100000; i++ {
+		key := []byte(fmt.Sprintf("t%d", i))
+		if int(redis.VerifCrc16(redis.VerifHashtag(key)))&(redis.VerifSlotNum-1) > 8191 {
+			continue
+		}
+		raw := rig.Handle(hx.Bulks([]byte("get"), key))
+		sent := rig.Drain()
+		if len(sent) != 1 {
+			return "not-forwarded"
+		}
+		cl := "X"
+		if sent[0].Addr == masters[0] {
+			cl = "M"
+		}
+		for j, r := range reps {
+			if sent[0].Addr == r && f[2][j] == '0' {
+				cl = "R"
+			}
+		}
+		classes = append(classes, cl)
+		sent[0].Reply(&redis.RespValue{Type: redis.BulkString, Text: []byte("v")})
+		_ = raw
+	}
+	sort.Strings(classes)
+	// distinct classes with counts
+	out := map[string]int{}
+	for _, c := range classes {
+		out[c]++
+	}
+	var parts []string
+	for _, k := range []string{"M", "R", "X"} {
+		if out[k] > 0 {
+			parts = append(parts, k)
+		}
+	}
+	return strings.Join(parts, "")
+}
+
 func (c *c14) Exec(op string) string {
 	f := hx.Fields(op)
+	if len(f) >= 1 && f[0] == "c14.topo" {
+		return recoverStr(func() string { return c.topo(f[1:]) })
+	}
 	if len(f) != 4 || f[0] != "c14.cmd" {
 		return "bad-op"
 	}
@@ -168,6 +246,14 @@ var redisCommandList = strings.Fields(`append asking auth bgrewriteaof bgsave bi
 
 func (c *c14) Gen(r *hx.Run) {
 	rng := r.Rng
+	// replica sets that change between two refreshes while the masters stay the same
+	for _, st := range []string{"R", "B"} {
+		for _, a1 := range []string{"000", "001", "011", "111", "010"} {
+			for _, a2 := range []string{"000", "001", "011", "111", "100"} {
+				r.Do(fmt.Sprintf("c14.topo %s %s %s 40", st, a1, a2), a1 != a2, "topo")
+			}
+		}
+	}
 	casings := func(s string) []string {
 		mixed := []byte(s)
 		for i := range mixed {
